@@ -1,4 +1,6 @@
 """C07 — RAM, in-memory SQLite and SQLite-file backends are observationally equivalent."""
+import json
+
 from vcheck import core, svccheck, svc
 
 WEIGHTS = {'createStudy': 4, 'getStudy': 1, 'listStudies': 2, 'deleteStudy': 4, 'setStudyState': 2,
